@@ -364,11 +364,23 @@ func propC12(c *Ctx) {
 		}
 		c.c12Eap(s2, in, tag, i, &corr)
 	}
+	c.c12Canonical()
 	sc := c.suite("reencode-model-vs-impl", "correspondence", "sample: Go decode/encode outcomes = Lean model outcomes on the same inputs")
 	c.correspond(sc, corr)
 }
 
+// datagrams of the C12 run that are shown to the strict RFC 7296 parser of the Lean specification (Spec.parse)
+type c12SpecCase struct {
+	in       []byte
+	mustSome bool // written by the independent canonical encoder from a message of the domain
+}
+
+var c12SpecCases []c12SpecCase
+
 func (c *Ctx) c12Msg(s *SuiteStat, in []byte, canonical bool, tag string, idx int, corr *[]corrCase) {
+	if len(in) < 6000 && (tag == "canonical-independent-encoder" || idx%2 == 0) && len(c12SpecCases) < c.n(2500, 30000) {
+		c12SpecCases = append(c12SpecCases, c12SpecCase{in: in, mustSome: tag == "canonical-independent-encoder"})
+	}
 	m1 := new(message.IKEMessage)
 	d1 := guard(func() (string, error) {
 		if err := m1.Decode(exact(in)); err != nil {
@@ -421,6 +433,56 @@ func (c *Ctx) c12Msg(s *SuiteStat, in []byte, canonical bool, tag string, idx in
 	if e2 != e1 {
 		c.violate(Violation{Suite: s.Name, Kind: "property", Index: idx, Class: "unstable-encode",
 			Desc: "second re-encoding differs from the first", Input: line, Expected: clip(e1.String()), Actual: clip(e2.String())})
+	}
+}
+
+// "canonical" decided independently of the library: the strict RFC 7296 parser of the Lean specification
+// (IkeModel/Spec/Parse.lean, theorems C05Parse / C12Canonical) says which datagrams are canonical and which fields
+// they carry; the implementation must decode them to exactly those fields and re-encode them byte-identically
+func (c *Ctx) c12Canonical() {
+	s := c.suite("canonical-by-the-spec-parser", "oracle",
+		"half of the datagrams of the decode-encode-decode suite (canonical, liberal, mutated; < 6000 octets) are given to Spec.parse (Lean, strict RFC 7296 parser, through the driver): whenever it accepts a datagram, Decode must return exactly the fields it read and Encode of the decoded message must reproduce the datagram octet for octet; every datagram written by the independent canonical encoder from a message of the domain must be accepted by Spec.parse (tie); non-trivial = accepted by Spec.parse; distinct by datagram")
+	defer func() { c12SpecCases = nil }()
+	if c.driver == "" || len(c12SpecCases) == 0 {
+		c.note("suite %s skipped (no driver)", s.Name)
+		return
+	}
+	lines := make([]string, len(c12SpecCases))
+	for i, cs := range c12SpecCases {
+		lines[i] = "spec-parse " + hx(cs.in)
+	}
+	res, err := c.runDriver(lines)
+	if err != nil {
+		c.violate(Violation{Suite: s.Name, Kind: "correspondence", Class: "driver-failure", Desc: err.Error()})
+		return
+	}
+	for i, cs := range c12SpecCases {
+		accepted := strings.HasPrefix(res[i], "some ")
+		s.add(lines[i], accepted, fmt.Sprintf("spec-parse-accepts:%v", accepted), fmt.Sprintf("independent-canonical-encoder:%v", cs.mustSome))
+		if !accepted {
+			if cs.mustSome || res[i] != "none" {
+				c.violate(Violation{Suite: s.Name, Kind: "correspondence", Index: i, Class: "spec-parse-rejects-canonical",
+					Desc: "the strict parser of the Lean specification rejects a datagram written by the independent canonical encoder", Input: lines[i], Expected: "some ...", Actual: clip(res[i])})
+			}
+			continue
+		}
+		want := "ok " + res[i][len("some "):]
+		m := new(message.IKEMessage)
+		d := guard(func() (string, error) {
+			if err := m.Decode(exact(cs.in)); err != nil {
+				return "", err
+			}
+			return renderMsg(m).String(), nil
+		})
+		if d.String() != want {
+			c.violate(Violation{Suite: s.Name, Kind: "property", Index: i, Class: "canonical-datagram-decode:" + d.kind,
+				Desc: "a canonical datagram (accepted by the strict RFC 7296 parser of the specification) is not decoded to the fields it carries", Input: "dec msg " + hx(cs.in), Expected: clip(want), Actual: clip(d.String())})
+			continue
+		}
+		if e := encodeMsgRes(m); e.kind != "ok" || e.val != hx(cs.in) {
+			c.violate(Violation{Suite: s.Name, Kind: "property", Index: i, Class: "canonical-not-identical",
+				Desc: "re-encoding of a canonical datagram (accepted by the strict RFC 7296 parser of the specification) is not byte-identical", Input: "dec msg " + hx(cs.in), Expected: hx(cs.in), Actual: clip(e.String())})
+		}
 	}
 }
 
